@@ -22,16 +22,16 @@ namespace Hl7.Msg
 open Hl7 Hl7.Py Hl7.G
 
 /-- the segment parsed from a line, if it parses -/
-def parsedLine (T : Tables) (dflt : Defaults) (ec : EC) (strict : Bool) (l : Str) : Option Pe.Seg :=
-  match Pe.segment T dflt (strip l) ec strict with
+def parsedLine (T : Tables) (ec : EC) (strict : Bool) (l : Str) : Option Pe.Seg :=
+  match Pe.segment T (strip l) ec strict with
   | .ok s => some s
   | .error _ => none
 
-theorem foldl_place_sublist (T : Tables) (dflt : Defaults) (ec : EC) (strict : Bool) (lines : List Str) :
+theorem foldl_place_sublist (T : Tables) (ec : EC) (strict : Bool) (lines : List Str) :
     ∀ (s s' : St),
       lines.foldlM (fun (s : St) l =>
-        place T strict (String.ofList (l.take 3)) (fun _ => Pe.segment T dflt (strip l) ec strict) (s.frames.length + 1) s) s = .ok s' →
-      ∃ added, s'.flatAll = s.flatAll ++ added ∧ added.Sublist (lines.filterMap (parsedLine T dflt ec strict)) := by
+        place T strict (String.ofList (l.take 3)) (fun _ => Pe.segment T (strip l) ec strict) (s.frames.length + 1) s) s = .ok s' →
+      ∃ added, s'.flatAll = s.flatAll ++ added ∧ added.Sublist (lines.filterMap (parsedLine T ec strict)) := by
   induction lines with
   | nil =>
     intro s s' h
@@ -41,7 +41,7 @@ theorem foldl_place_sublist (T : Tables) (dflt : Defaults) (ec : EC) (strict : B
   | cons l ls ih =>
     intro s s' h
     simp only [List.foldlM, bind, Except.bind] at h
-    cases hp : place T strict (String.ofList (l.take 3)) (fun _ => Pe.segment T dflt (strip l) ec strict) (s.frames.length + 1) s with
+    cases hp : place T strict (String.ofList (l.take 3)) (fun _ => Pe.segment T (strip l) ec strict) (s.frames.length + 1) s with
     | error e => simp [hp] at h
     | ok s1 =>
       simp only [hp] at h
@@ -49,53 +49,53 @@ theorem foldl_place_sublist (T : Tables) (dflt : Defaults) (ec : EC) (strict : B
       rcases place_flat T strict _ _ _ s s1 hp with hsame | ⟨sg, hsg, happ⟩
       · refine ⟨added, by rw [h1, hsame], ?_⟩
         simp only [List.filterMap_cons]
-        cases parsedLine T dflt ec strict l with
+        cases parsedLine T ec strict l with
         | none => exact h2
         | some x => exact h2.trans (List.sublist_cons_self _ _)
       · refine ⟨sg :: added, by rw [h1, happ]; simp, ?_⟩
-        have : parsedLine T dflt ec strict l = some sg := by simp [parsedLine, hsg]
+        have : parsedLine T ec strict l = some sg := by simp [parsedLine, hsg]
         simp only [List.filterMap_cons, this]
         exact List.Sublist.cons₂ _ h2
 
 /-- **C08 (order) / C03 (no reordering).** With group finding on, the flattened tree is a sublist, in
     document order, of the segments parsed from the non-empty input lines. -/
-theorem C08_order (T : Tables) (dflt : Defaults) (text : Str) (ec : EC) (strict : Bool) (rows : List SRow)
-    (nodes : List Node) (h : parseSegments T dflt text ec strict (some rows) true = .ok nodes) :
-    (flatL nodes).Sublist (((splitOn '\r' text).filter (fun l => !l.isEmpty)).filterMap (parsedLine T dflt ec strict)) := by
+theorem C08_order (T : Tables) (text : Str) (ec : EC) (strict : Bool) (rows : List SRow)
+    (nodes : List Node) (h : parseSegments T text ec strict (some rows) true = .ok nodes) :
+    (flatL nodes).Sublist (((splitOn '\r' text).filter (fun l => !l.isEmpty)).filterMap (parsedLine T ec strict)) := by
   unfold parseSegments at h
   simp only [bind, Except.bind] at h
   generalize hl : (splitOn '\r' text).filter (fun l => !l.isEmpty) = lines at h ⊢
   cases hf : lines.foldlM (fun (s : St) l =>
-      place T strict (String.ofList (l.take 3)) (fun _ => Pe.segment T dflt (strip l) ec strict) (s.frames.length + 1) s)
+      place T strict (String.ofList (l.take 3)) (fun _ => Pe.segment T (strip l) ec strict) (s.frames.length + 1) s)
       (⟨[], rows, []⟩ : St) with
   | error e => simp [hf] at h
   | ok st =>
     simp only [hf, pure, Except.pure] at h
     cases h
-    obtain ⟨added, h1, h2⟩ := foldl_place_sublist T dflt ec strict lines _ st hf
+    obtain ⟨added, h1, h2⟩ := foldl_place_sublist T ec strict lines _ st hf
     rw [finish_flat _ st (by omega), h1]
     simpa [St.flatAll, flatL, pending] using h2
 
-theorem mapM_parse_flat (T : Tables) (dflt : Defaults) (ec : EC) (strict : Bool) (lines : List Str) :
-    ∀ nodes, lines.mapM (parseLine T dflt ec strict) = .ok nodes →
-      flatL nodes = lines.filterMap (parsedLine T dflt ec strict) ∧ nodes.length = lines.length := by
+theorem mapM_parse_flat (T : Tables) (ec : EC) (strict : Bool) (lines : List Str) :
+    ∀ nodes, lines.mapM (parseLine T ec strict) = .ok nodes →
+      flatL nodes = lines.filterMap (parsedLine T ec strict) ∧ nodes.length = lines.length := by
   induction lines with
   | nil => intro nodes h; simp [List.mapM_nil, pure, Except.pure] at h; cases h; simp [flatL]
   | cons l ls ih =>
     intro nodes h
     simp only [List.mapM_cons, bind, Except.bind] at h
-    cases hp : parseLine T dflt ec strict l with
+    cases hp : parseLine T ec strict l with
     | error e => simp [hp] at h
     | ok nd =>
       simp only [hp] at h
-      cases hr : ls.mapM (parseLine T dflt ec strict) with
+      cases hr : ls.mapM (parseLine T ec strict) with
       | error e => simp [hr] at h
       | ok rest =>
         simp only [hr, pure, Except.pure] at h
         cases h
         obtain ⟨h1, h2⟩ := ih rest hr
         unfold parseLine at hp
-        cases hs : Pe.segment T dflt (strip l) ec strict with
+        cases hs : Pe.segment T (strip l) ec strict with
         | error e => simp [hs] at hp
         | ok sg =>
           simp only [hs] at hp
@@ -104,18 +104,18 @@ theorem mapM_parse_flat (T : Tables) (dflt : Defaults) (ec : EC) (strict : Bool)
 
 /-- **C03 (groups off keeps everything).** With group finding off every non-empty line becomes exactly one
     top-level segment, in order: nothing is dropped. -/
-theorem C03_flat_keeps_all (T : Tables) (dflt : Defaults) (text : Str) (ec : EC) (strict : Bool) (refs : Option (List SRow))
-    (nodes : List Node) (h : parseSegments T dflt text ec strict refs false = .ok nodes) :
-    flatL nodes = ((splitOn '\r' text).filter (fun l => !l.isEmpty)).filterMap (parsedLine T dflt ec strict) ∧
+theorem C03_flat_keeps_all (T : Tables) (text : Str) (ec : EC) (strict : Bool) (refs : Option (List SRow))
+    (nodes : List Node) (h : parseSegments T text ec strict refs false = .ok nodes) :
+    flatL nodes = ((splitOn '\r' text).filter (fun l => !l.isEmpty)).filterMap (parsedLine T ec strict) ∧
     nodes.length = ((splitOn '\r' text).filter (fun l => !l.isEmpty)).length := by
   unfold parseSegments at h
   simp only [bind, Except.bind] at h
-  cases refs <;> exact mapM_parse_flat T dflt ec strict _ nodes h
+  cases refs <;> exact mapM_parse_flat T ec strict _ nodes h
 
 /-- **C08 (deterministic).** -/
-theorem C08_deterministic (T : Tables) (dflt : Defaults) (text : Str) (ec : EC) (strict fg : Bool) (refs : Option (List SRow))
-    (a b : List Node) (ha : parseSegments T dflt text ec strict refs fg = .ok a)
-    (hb : parseSegments T dflt text ec strict refs fg = .ok b) : flatL a = flatL b := by
+theorem C08_deterministic (T : Tables) (text : Str) (ec : EC) (strict fg : Bool) (refs : Option (List SRow))
+    (a b : List Node) (ha : parseSegments T text ec strict refs fg = .ok a)
+    (hb : parseSegments T text ec strict refs fg = .ok b) : flatL a = flatL b := by
   rw [ha] at hb; cases hb; rfl
 
 /-- the names of all segments of a parsed message, flattened -/
